@@ -248,7 +248,7 @@ Proof.
   intros H0 Ha Hb. unfold or_comps. destruct (Nat.compare (depth sa) (depth sb)); rewrite ?krev_kextend; try assumption.
   destruct ka as [ca|]; [|discriminate]. destruct kb as [cb|]; [|discriminate].
   destruct (if Nat.eqb _ _ then _ else _) as [ka' kb']. rewrite krev_kextend.
-  destruct pick as [[|]|]; try assumption.
+  destruct pick as [[|]|]; [destruct ka'|destruct kb'|]; try assumption.
 Qed.
 
 Lemma or_good ca cb : good ca -> good cb -> good (c_or_body ca cb).
